@@ -13,6 +13,10 @@ impl StateMachine<'_> {
         if !self.test_submodule_log() {
             return Ok(false);
         }
+        // A submodule section starts here (there is no `diff` line in front of it): write the
+        // pending header of the previous file section first, otherwise it comes out after
+        // this section.
+        self.handle_pending_line_with_diff_name()?;
         self.handle_additional_cases(State::SubmoduleLog)
     }
 
